@@ -80,6 +80,7 @@ type Shared struct {
 	Samples    []Sample
 	Stats      Stats
 	Bounds     map[string][2]int64 // split tag -> min,max value explored
+	ForeignGlobals map[string]bool // globals of non-initialised foreign packages that were read (as zero values)
 }
 
 type Sample struct {
@@ -88,7 +89,7 @@ type Sample struct {
 }
 
 func NewShared() *Shared {
-	return &Shared{Reached: map[string]int{}, SeenViol: map[string]bool{}, Funcs: map[string]bool{}, Asserts: map[string]int{}, Inconcl: map[string]int{}, Bounds: map[string][2]int64{}}
+	return &Shared{Reached: map[string]int{}, SeenViol: map[string]bool{}, Funcs: map[string]bool{}, Asserts: map[string]int{}, Inconcl: map[string]int{}, Bounds: map[string][2]int64{}, ForeignGlobals: map[string]bool{}}
 }
 
 type Machine struct {
@@ -576,7 +577,7 @@ func (m *Machine) get(fr *frame, v ssa.Value) Value {
 
 // runInit lists the non-repository packages whose initialiser is executed symbolically (small, pure Go).
 // Every other foreign package is NOT initialised: its error-typed globals (io.EOF-like sentinels such as
-// net.ErrClosed) become distinct opaque error objects, and reading any other of its globals is an engine error.
+// net.ErrClosed) become distinct opaque error objects, and any other of its globals reads as its zero value (recorded in the evidence; the native validation runs cross-check).
 var runInit = map[string]bool{
 	"io": true, "errors": true, "bytes": true, "container/list": true, "encoding/hex": true,
 	"golang.org/x/crypto/cryptobyte": true, "golang.org/x/crypto/cryptobyte/asn1": true, "crypto/subtle": true,
@@ -623,7 +624,10 @@ func (m *Machine) globalObj(g *ssa.Global) *Object {
 		m.globals[g] = o
 	}
 	if name, opaque := m.opaqueGlobals[o]; opaque {
-		panic(unsupported("access to global " + name + " of a package whose initialiser is not executed"))
+		// the zero value stands for the uninitialised global: recorded, and cross-checked by the native validation runs
+		m.Sh.Mu.Lock()
+		m.Sh.ForeignGlobals[name] = true
+		m.Sh.Mu.Unlock()
 	}
 	return o
 }
